@@ -252,8 +252,9 @@ def run(report, prog, tier):
     rule_t12(report, prog)
     rule_first_ndef_tlv(report, prog)
     rule_writeback(report, prog)
-    from .c01 import rule_tt2_memory_units
+    from .c01 import rule_tt2_memory_units, rule_image_flush
     rule_tt2_memory_units(report, prog, rule='C02-R3')
+    rule_image_flush(report, prog, rule='C02-R3')
     rule_t3(report, prog)
     rule_t4(report, prog)
     rule_read_is_pure(report, prog)
